@@ -296,6 +296,12 @@ func main() {
 			}
 			runPP(e, o, "replay")
 			fmt.Printf("printed: %q\n", realPrint(e))
+		case "stmt":
+			var sd uint64
+			var i int
+			if _, err := fmt.Sscanf(fs[1], "%d,%d", &sd, &i); err == nil {
+				runStmt(sd, i, o)
+			}
 		case "parse":
 			runParse(fs[1], o, "replay")
 		case "glue":
@@ -395,6 +401,12 @@ func main() {
 		}
 	}
 
+	// 3b. synthesized STATEMENT trees: every ast.Stmt kind, no positions -> real printer.Fprint ->
+	// real parser.ParseFile -> structural compare (dropped empty statements ignored)
+	for i := 0; i < f.N/4+200; i++ {
+		runStmt(f.Seed, i, o)
+	}
+
 	// 4. random synthesized trees
 	r := vh.NewRand(f.Seed)
 	for i := 0; i < f.N; i++ {
@@ -430,6 +442,21 @@ func main() {
 				runParse(strings.Join(ser, ","), o, "parse_mutant")
 			}
 		}
+	}
+}
+
+// runStmt: statement tree number i of the seed (case line `stmt <seed>,<i>`, replayable).
+func runStmt(seed uint64, i int, o *vh.Out) {
+	rr := vh.NewRand(seed).Fork(5000000 + i)
+	fd := exprx.NewStmtGen(rr).FuncTree(1 + rr.Intn(3))
+	text, key, detail, ok := exprx.StmtRoundTrip(fd)
+	line := fmt.Sprintf("stmt\t%d,%d", seed, i)
+	o.Count("stmt_trees")
+	if !ok {
+		o.Oracle(key, line, detail+" printed="+text)
+		o.Case(line, "FAIL "+key, true)
+	} else {
+		o.Case(line, "ok", len(text) > 30)
 	}
 }
 
